@@ -148,6 +148,18 @@ pub fn gen(tier: &str, r: &mut Rng, emit: &mut dyn FnMut(Vec<u64>)) {
             let mut v = vec![7]; d7.write(&mut v); emit(v);
         }
     } } } }
+    // set_content_format over a prior value that already means the same (or another) format: padded, repeated
+    for (i, c) in ALL_CF.iter().enumerate() { let n = usize::from(*c) as u64; if i % 7 != 0 && n != 0 && n != 50 { continue; }
+        for pad in 0..4usize { for extra in 0..3usize { for other in [false, true] {
+            let m = if other { n + 1 } else { n };
+            let mut first = vec![0u8; pad]; if m > 255 { first.push((m >> 8) as u8); } if m > 0 { first.push(m as u8); }
+            let mut vals = vec![first];
+            for e in 0..extra { vals.push(if e == 0 { if n > 255 { vec![(n >> 8) as u8, n as u8] } else if n > 0 { vec![n as u8] } else { vec![] } } else { vec![9] }); }
+            let mut d = PktDesc { vtt: 0x40, class: 0x45, mid: 7, ..Default::default() };
+            d.entries = vec![(12u16, vals)];
+            let mut v = vec![8]; d.write(&mut v); v.push(i as u64); emit(v);
+        } } }
+    }
     // trait views and copies
     for _ in 0..(if thorough { 50_000 } else { 4_000 }) {
         let mut src = suite06::rand_pkt(r);
